@@ -18,7 +18,9 @@ import Reamber.Props.C09
 #print axioms Reamber.Pipeline.offset_established_first
 #print axioms Reamber.Pipeline.offset_established_zero
 #print axioms Reamber.Pipeline.offset_established_min
-#print axioms Reamber.Pipeline.quaToSM_offset_counterexample
+#print axioms Reamber.Pipeline.minAll_offset_counterexample
 #print axioms Reamber.Pipeline.o2j_first_tempo_at_zero
 #print axioms Reamber.Pipeline.content_carried
 #print axioms Reamber.Pipeline.into_qua_objects_partial
+#print axioms Reamber.Pipeline.contentOk_abstract
+#print axioms Reamber.Pipeline.convert_write_qua_objects_partial
